@@ -170,7 +170,7 @@ class DictReaderStepper:
         """
         file = Path(file)
         try:
-            f = file.open("r")
+            f = file.open("r", encoding="utf-8-sig")
             return (
                 None,
                 cls(
